@@ -115,6 +115,8 @@ class Sim:
         fresh = lambda x: self._is_slot(x) and self.cells.get(x) is None
         if op == "new":
             return n == 1 and len(self.alive) < 12
+        if op == "watchall":
+            return n == 2
         if op in ("ctor_def", "ctor_rawnull"):
             return n == 2 and fresh(w[1])
         if op in ("ctor_copy", "ctor_move"):
@@ -185,6 +187,8 @@ def _gen_seq(rng, n_ops):
         out.append(" ".join(w))
 
     emit("new")
+    if rng.chance(0.35):
+        emit("watchall", "on")    # pointee destructors inspect (copy and drop) every live handle variable
     tries = 0
     while len(out) < n_ops and tries < n_ops * 30:
         tries += 1
